@@ -10,6 +10,7 @@ import (
 	"verif/hspec"
 	"verif/mon"
 	"verif/zoo"
+	"verif/zoo/alt2"
 )
 
 // C13 — encoding is fail-stop.
@@ -85,6 +86,14 @@ func badKinds() []badKind {
 		{"*struct{time.Time;string;func}", func() interface{} {
 			return &BadStamped2{Time: time.Unix(1500000000, 5e6), Note: "n", F: func() {}}
 		}, true},
+		{"[]chan*string", func() interface{} { return []chan *string{make(chan *string)} }, false},
+		{"[]func()*int", func() interface{} { return []func() *int{func() *int { return nil }} }, false},
+		{"[]chan*int32", func() interface{} { return []chan *int32{make(chan *int32)} }, false},
+		{"[2]chan*float64", func() interface{} { return [2]chan *float64{make(chan *float64), nil} }, true},
+		{"same-short-name-more-fields", func() interface{} {
+			// two Go types called Inner on one stream; the second has a third field holding a channel
+			return []interface{}{&zoo.Inner{A: 1, S: "a"}, &alt2.Inner{X: 2, Y: "b", Bad: make(chan int)}}
+		}, false},
 		{"nil-chan", func() interface{} { var c chan int; return c }, true},
 		{"*nil-chan", func() interface{} { var c chan int; return &c }, true},
 		{"nil-func", func() interface{} { var f func(); return f }, false},
